@@ -488,3 +488,13 @@ def spec(n: int, ks: List[int]) -> bool:
     except Exception:  # noqa: BLE001
         ok = False
     return fin(M, ok, n=n, ks=ks)
+
+
+def probe():
+    """internal attributes this harness installs / reads (a refactor that renames them makes the unit SKIP, not fail)"""
+    e = LookupEncoder(lookup_size=2)
+    e.lookup.data, e.lookup._evicting, e.lookup.max_size, e.last_assigned_index, e.last_reused_index  # noqa: B018
+    e.lookup.data.move_to_end
+    d = LookupDecoder(lookup_size=2)
+    d.data, d.last_assigned_index, d.last_reused_index, d.lookup_size  # noqa: B018
+    d.data.maxlen
